@@ -249,7 +249,13 @@ func (s *Solver) readLine() string {
 // model reads the values of all declared variables.
 func (s *Solver) model() Model {
 	n := s.declared
-	m := make(Model, n)
+	var maxIdx uint64
+	for i := 0; i < n; i++ {
+		if s.tt.vars[i].val > maxIdx {
+			maxIdx = s.tt.vars[i].val
+		}
+	}
+	m := make(Model, maxIdx+1)
 	if n == 0 {
 		return m
 	}
@@ -304,7 +310,7 @@ func (s *Solver) model() Model {
 			fmt.Sscanf(toks[i+2][2:], "%d", &x)
 			i += 2
 		}
-		m[vi] = x
+		m[s.tt.vars[vi].val] = x
 		i++
 	}
 	return m
